@@ -284,6 +284,9 @@ def bq_sx(b):
     inner = ' '.join('(%s)' % kstep_sx(x) for x in b[1])
     if b[0] == 'c':
         return '(c (%s) %d %s)' % (inner, b[2], ' '.join(str(x) for x in b[3]))
+    if b[0] == 'cl':
+        # the number literal on the left: ('cl', inner, op, literal code points) for `literal OP @inner`
+        return '(cl (%s) %d %s)' % (inner, b[2], ' '.join(str(x) for x in b[3]))
     if b[0] == 'cr':
         # an ordering against a `$` path: ('cr', inner, op, root steps); ('re', root steps) / ('rn', root steps): `$ steps` / `!$ steps`
         return '(cr (%s) %d (%s))' % (inner, b[2], ' '.join('(%s)' % kstep_sx(x) for x in b[3]))
